@@ -20,7 +20,10 @@ for d in sorted(glob.glob("/verif/seeded/*/")):
     for extra in sorted(glob.glob(d + "result-*.json")):
         x = json.load(open(extra))
         if x.get("caught"):
-            res += "; caught by the check of %s (%s)" % (x["property"], x["tier"])
+            if extra.endswith("result-thorough.json"):
+                res += "; caught by %s thorough" % x["property"]
+            else:
+                res += "; caught by the check of %s (%s)" % (x["property"], x["tier"])
     hist = m.get("history", "")
     rows.append("| %s | %s | %s | %s |" % (sid, m["summary"][:150].replace("|", "/").replace("\n", " ") + "…", m["needs_to_manifest"][:120].replace("|", "/").replace("\n", " ") + "…", res + (" — " + hist if hist else "")))
 print("| seeded change | what it does | what it needs to manifest | result |\n|---|---|---|---|")
